@@ -74,6 +74,22 @@ def match_types(writer_type, reader_type, named_schemas):
     return False
 
 
+def _find_reader_branch(w_schema, r_union, named_schemas):
+    """Returns the branch of the reader's union that the writer's schema
+    resolves to: the first branch of the same type, otherwise the first branch
+    the writer's type can be promoted to. Returns None if there is none"""
+    w_type = extract_record_type(w_schema)
+    if w_type in ("int", "long", "float", "string", "bytes"):
+        # These are the types with promotions; an exact match comes first
+        for schema in r_union:
+            if extract_record_type(schema) == w_type:
+                return schema
+    for schema in r_union:
+        if match_types(w_schema, schema, named_schemas):
+            return schema
+    return None
+
+
 def match_schemas(w_schema, r_schema, named_schemas):
     error_msg = f"Schema mismatch: {w_schema} is not {r_schema}"
     if isinstance(w_schema, list):
@@ -83,11 +99,10 @@ def match_schemas(w_schema, r_schema, named_schemas):
     elif isinstance(r_schema, list):
         # If the reader is a union, ensure one of the new schemas is the same
         # as the writer
-        for schema in r_schema:
-            if match_types(w_schema, schema, named_schemas):
-                return schema
-        else:
+        schema = _find_reader_branch(w_schema, r_schema, named_schemas)
+        if schema is None:
             raise SchemaResolutionError(error_msg)
+        return schema
     else:
         # Check for dicts as primitive types are just strings
         if isinstance(w_schema, dict):
@@ -422,19 +437,18 @@ def read_union(
             else:
                 raise SchemaResolutionError(msg)
         else:
-            for schema in reader_schema:
-                if match_types(idx_schema, schema, named_schemas):
-                    idx_reader_schema = schema
-                    result = read_data(
-                        decoder,
-                        idx_schema,
-                        named_schemas,
-                        schema,
-                        options,
-                    )
-                    break
-            else:
+            idx_reader_schema = _find_reader_branch(
+                idx_schema, reader_schema, named_schemas
+            )
+            if idx_reader_schema is None:
                 raise SchemaResolutionError(msg)
+            result = read_data(
+                decoder,
+                idx_schema,
+                named_schemas,
+                idx_reader_schema,
+                options,
+            )
     else:
         result = read_data(decoder, idx_schema, named_schemas, None, options)
 
